@@ -64,7 +64,7 @@ class StakingPosWorld(ss.StakingWorld):
     # -------------------------------------------------------------- one operation
     def exec(self, op):
         k = op[0]
-        if k in ("Time", "Energy"):
+        if k in ("Time", "Energy", "Upgrade"):
             return super().exec(op)
         if k in ADMIN_OPS:
             o = super().exec(op)
@@ -346,6 +346,8 @@ def gen_op(rng, w):
         # the admin tries to withdraw capacity that was already accrued AND paid out (only un-accrued capacity may leave)
         _rem = max(0, w.last["cap"] - w.last["acc"])
         return ["Withdraw", OWNER, _rem + rng.choice([1, _paid, max(1, _paid // 2)])]
+    if type(w).__name__ in ("FarmWorld", "LockedFarmWorld", "StakingPosWorld") and w.last["supply"] > 0 and rng.random() < 0.02:
+        return ["Upgrade"]          # only the base worlds (their derived worlds have their own observation code)
     if roll < 0.23:
         kind = rng.random()
         who = rng.choice([OWNER] * 7 + users)
